@@ -177,7 +177,13 @@ where
 
     // Prepare the default SolOut (wrapping user callback if provided)
     let n_states = y0.len();
-    let mut default_solout = DefaultSolOut::new(f, options.t_eval.clone(), options.dense_output, options.first_step, x0, n_states);
+    // The solvers never step past xend: a first_step that covers the whole interval cannot be
+    // enforced as a separate first output point, every accepted step is reported instead
+    let first_output = options
+        .first_step
+        .map(|h| h.abs())
+        .filter(|h| *h < (xend - x0).abs());
+    let mut default_solout = DefaultSolOut::new(f, options.t_eval.clone(), options.dense_output, first_output, x0, n_states);
 
     // Dispatch by method
     let result = match options.method {
